@@ -16,6 +16,8 @@ EXPLANATION = (
     "the metrics guard, task-local scope / try_with, wait-for bookkeeping, pure getters and formatting). An added return/break, channel "
     "operation, timer, sleep, spawn, hook call, flag assignment or reordering shows up as a node or edge difference. The one "
     "non-neutral addition, the deadlock panic in ask, is allowed iff C15-O15.5 holds; it does not on the unchanged tree (finding F1'). "
+    "The detection bookkeeping that runs for every ask (region under the graph lock, the guard's destructor) must contain no other "
+    "panic site (unwrap / expect / assert): such a panic does not exist in the default build. "
     "All other checks are themselves evaluated under the feature sets.")
 
 
